@@ -757,7 +757,7 @@ pub struct EditInfo {
     pub is_rename: bool,
 }
 
-fn declared_names(m: &FileM) -> Vec<(usize, String)> {
+pub fn declared_names(m: &FileM) -> Vec<(usize, String)> {
     // (decl index, name) of everything other files can refer to
     let mut v = vec![];
     for (i, d) in m.decls.iter().enumerate() {
@@ -793,6 +793,8 @@ pub fn edit(
     view: &View,
     former: &mut Vec<String>,
     renames: &[(String, String)],
+    hot: &dyn Fn(&str) -> bool,
+    want_xfile: bool,
 ) -> Option<EditInfo> {
     if m.decls.is_empty() {
         let dcl = if d.chance(1, 4) { gen_package(d, nm, view) } else { gen_module(d, nm, view) };
@@ -803,7 +805,17 @@ pub fn edit(
             ..Default::default()
         });
     }
-    let k = d.weighted(&[5, 3, 4, 4, 3, 3, 1]);
+    let mut k = d.weighted(&[5, 3, 4, 4, 3, 3, 1]);
+    if want_xfile && k > 1 && d.chance(2, 3) {
+        // steer towards the scenario the property is about
+        k = if m.decls.iter().any(|x| hot(&x.name)) && d.chance(1, 3) {
+            1
+        } else if declared_names(m).iter().any(|n| hot(&n.1)) {
+            0
+        } else {
+            k
+        };
+    }
     match k {
         0 | 1 => {
             // rename a member (0) or a top-level declaration (1)
@@ -812,10 +824,21 @@ pub fn edit(
                 if names.is_empty() {
                     return None;
                 }
-                d.pick(&names).1.clone()
+                // mostly a name that another file mentions
+                let hots: Vec<&(usize, String)> = names.iter().filter(|n| hot(&n.1)).collect();
+                if !hots.is_empty() && d.chance(3, 4) {
+                    d.pick(&hots).1.clone()
+                } else {
+                    d.pick(&names).1.clone()
+                }
             } else {
-                let i = d.below_usize(m.decls.len());
-                m.decls[i].name.clone()
+                let hots: Vec<&Decl> = m.decls.iter().filter(|x| hot(&x.name)).collect();
+                if !hots.is_empty() && d.chance(3, 4) {
+                    d.pick(&hots).name.clone()
+                } else {
+                    let i = d.below_usize(m.decls.len());
+                    m.decls[i].name.clone()
+                }
             };
             let prefix: String = old.chars().take_while(|c| !c.is_ascii_digit()).collect();
             let back: Vec<String> = former
